@@ -39,7 +39,13 @@
                    ordinary elements for html.parser)
                  - words in a CDATA section outside removable elements (text in XHTML,
                    a bogus comment in HTML).
-      The token string is assumed to be rendered in BODY context (the harness puts a text
+         ORDER (OrderOK): the MUST words that occur in the main text occur there in the order of the
+      token string -- removing an element must not move the text that follows it.
+      CONTEXTS: the harness wraps the enumerated string in context frames whose tags are tokens of
+      the validated string (<body>, <table><tr><td|th>, <ul><li>, <h2>, <a>, a closed <b>T</b> sibling
+      in front); an observation is the union of every text-bearing accessor of the result (main text,
+      unit texts, table cells, heading and link lists, title), so "MUSTNOT" means: in none of them.
+   The token string is assumed to be rendered in BODY context (the harness puts a text
       word or an explicit <body> in front): <noscript> in <head> follows other HTML5 rules.
 
    2. ALGORITHM PART  the skip counter of
@@ -85,9 +91,10 @@ Removable == {"script", "style", "noscript", "iframe", "object", "embed", "apple
 RawText   == {"script", "style"}                       \* HTMLParser.CDATA_CONTENT_ELEMENTS
 Void      == {"br", "hr", "img", "input", "meta", "link", "area", "base", "col", "embed",
               "param", "source", "track", "wbr"}       \* HTML void elements
-Plain     == {"div", "p", "span", "body"}              \* ordinary containers of the universe
+Plain     == {"div", "p", "span", "body",                \* ordinary containers of the universe
+              "b", "a", "h2", "ul", "li", "table", "tr", "td", "th"}   \* + the context frames of the harness
 Barrier   == {"iframe", "object", "applet"}            \* raw text / scope barriers: tags inside reach nothing outside
-PClosers  == {"div", "p"}                              \* start tags that close an open <p> in HTML5
+PClosers  == {"div", "p", "h2", "ul", "li", "table"}   \* start tags that close an open <p> in HTML5
 Names     == Removable \cup Void \cup Plain
 Kinds     == {"T", "A", "S", "E", "X", "C", "D"}
 
@@ -121,6 +128,7 @@ AlphaQ5 == {Txt, St("iframe"), En("iframe"), St("object"), En("object"), En("bod
 AlphaQ5B == AlphaQ5 \cup {St("body")}                 \* theorem / sensitivity only: the doc frame's <body> as a token
 AlphaQ6 == {Txt, Sc("script"), Sc("style"), Sc("noscript"), Sc("iframe"), Sc("object"), Sc("applet"),
             St("div"), En("noscript")}
+AlphaQ7 == {Txt, St("span"), En("span"), St("embed"), St("script"), En("script")}   \* inline sibling, then a removed element, then text
 AlphaT  == {Txt, Amp, Com, Cds,
             St("noscript"), En("noscript"), St("object"), En("object"), St("iframe"), En("iframe"),
             St("script"), En("script"), St("div"), En("div"), St("p"), En("p"),
@@ -201,6 +209,12 @@ Class(toks) == ClassX(toks, FALSE)                     \* HTML dialect
 Conforms(cls, seen) == \A i \in DOMAIN cls : (cls[i] = "MUST" => i \in seen)
                                               /\ (cls[i] = "MUSTNOT" => i \notin seen)
 ConformsRaw(cls, seen) == \A i \in DOMAIN cls : cls[i] = "MUST" => i \in seen   \* documented raw-HTML output
+
+\* ORDER: removing an element must not rearrange the text around it.  seq = the positions of the words
+\* found in the MAIN text, in the order in which they occur there; the MUST words among them keep the
+\* order of the token string.  (Declarative only: the step machine below emits a set, it has no tree.)
+OrderOK(cls, seq) == \A i \in 1..Len(seq) : \A j \in 1..Len(seq) :
+                        (i < j /\ cls[seq[i]] = "MUST" /\ cls[seq[j]] = "MUST") => seq[i] < seq[j]
 
 NonTrivial(cls) == (\E i \in DOMAIN cls : cls[i] = "MUST") /\ (\E i \in DOMAIN cls : cls[i] = "MUSTNOT")
 
